@@ -6,7 +6,9 @@ import (
 	"go/parser"
 	"go/token"
 	"path/filepath"
+	"sort"
 	"strconv"
+	"strings"
 )
 
 // C13: the column type numbers and the UNSIGNED flag of mysql/type.go (the
@@ -149,10 +151,218 @@ func extractC13(repo string) ([]fact, error) {
 		}
 		return "false"
 	}
+	more, err := extractC13Encoders(repo, vals)
+	if err != nil {
+		return nil, err
+	}
+	facts = append(facts, more...)
 	facts = append(facts,
 		fact{name: "c13WriteResponseBuildsBinary", typ: "Bool", val: b(c13CallsUnderIsBinary(wr)),
 			doc: "proxy/server/session.go (*Session).writeResponse contains `if r.IsBinary { … rs.BuildBinaryResultSet() … }`"},
 		fact{name: "c13ResultStreamBuildsBinary", typ: "Bool", val: b(c13CallsUnderIsBinary(ws)),
 			doc: "proxy/server/client_conn.go (*ClientConn).writeOKResultStream contains `if isBinary { … BuildBinaryResultSet() … }`"})
 	return facts, nil
+}
+
+// c13PlainFunc finds a top-level function (no receiver).
+func c13PlainFunc(repo, rel, name string) (*ast.FuncDecl, error) {
+	fset := token.NewFileSet()
+	f, err := parser.ParseFile(fset, filepath.Join(repo, rel), nil, 0)
+	if err != nil {
+		return nil, err
+	}
+	for _, d := range f.Decls {
+		if fn, ok := d.(*ast.FuncDecl); ok && fn.Recv == nil && fn.Name.Name == name {
+			return fn, nil
+		}
+	}
+	return nil, fmt.Errorf("C13: function %s not found in %s", name, rel)
+}
+
+func c13Calls(n ast.Node, name string) bool {
+	found := false
+	ast.Inspect(n, func(m ast.Node) bool {
+		if call, ok := m.(*ast.CallExpr); ok {
+			switch f := call.Fun.(type) {
+			case *ast.Ident:
+				found = found || f.Name == name
+			case *ast.SelectorExpr:
+				found = found || f.Sel.Name == name
+			}
+		}
+		return true
+	})
+	return found
+}
+
+func c13NatList(xs []uint64) string {
+	sort.Slice(xs, func(i, j int) bool { return xs[i] < xs[j] })
+	var q []string
+	for _, x := range xs {
+		q = append(q, strconv.FormatUint(x, 10))
+	}
+	return "[" + strings.Join(q, ", ") + "]"
+}
+
+// extractC13Encoders reads, from the source, the tables the model of
+// AppendBinaryValue / BuildBinaryResultset / writeColumnDefinition is written
+// against:
+//   - the column types of the append-phase clause of AppendBinaryValue that
+//     sends a length-encoded string, and of the clause that appends the
+//     bytes as they are (the temporal types);
+//   - that BuildBinaryResultset guards AppendBinaryValue by integerFitsColumn;
+//   - the members of mysql.Field that writeColumnDefinition writes after the
+//     0x0c byte, in order.
+func extractC13Encoders(repo string, consts map[string]uint64) ([]fact, error) {
+	abv, err := c13PlainFunc(repo, "mysql/encoding.go", "AppendBinaryValue")
+	if err != nil {
+		return nil, err
+	}
+	// the last `switch fieldType { … }` at the top level of the body is the append phase
+	var appendPhase *ast.SwitchStmt
+	for _, st := range abv.Body.List {
+		if sw, ok := st.(*ast.SwitchStmt); ok {
+			if id, ok := sw.Tag.(*ast.Ident); ok && id.Name == "fieldType" {
+				appendPhase = sw
+			}
+		}
+	}
+	if appendPhase == nil {
+		return nil, fmt.Errorf("C13: append phase `switch fieldType` of AppendBinaryValue not found")
+	}
+	var lenEnc, raw []uint64
+	for _, cl := range appendPhase.Body.List {
+		cc := cl.(*ast.CaseClause)
+		var tys []uint64
+		for _, e := range cc.List {
+			id, ok := e.(*ast.Ident)
+			if !ok {
+				return nil, fmt.Errorf("C13: a case of the append phase is not a type constant")
+			}
+			v, ok := consts[id.Name]
+			if !ok {
+				return nil, fmt.Errorf("C13: unknown type constant %s in the append phase", id.Name)
+			}
+			tys = append(tys, v)
+		}
+		body := &ast.BlockStmt{List: cc.Body}
+		switch {
+		case c13Calls(body, "AppendLenEncStringBytes"):
+			lenEnc = append(lenEnc, tys...)
+		case len(cc.List) > 0 && !c13Calls(body, "Errorf"):
+			// `data = append(data, t...)` without a length check
+			src := false
+			ast.Inspect(body, func(m ast.Node) bool {
+				if call, ok := m.(*ast.CallExpr); ok && call.Ellipsis.IsValid() {
+					if id, ok := call.Fun.(*ast.Ident); ok && id.Name == "append" && len(call.Args) == 2 {
+						if a, ok := call.Args[1].(*ast.Ident); ok && a.Name == "t" {
+							src = true
+						}
+					}
+				}
+				return true
+			})
+			if src {
+				raw = append(raw, tys...)
+			}
+		}
+	}
+	if len(lenEnc) == 0 || len(raw) == 0 {
+		return nil, fmt.Errorf("C13: the length-encoded / raw clauses of the append phase were not recognised")
+	}
+	bld, err := c13PlainFunc(repo, "mysql/result.go", "BuildBinaryResultset")
+	if err != nil {
+		return nil, err
+	}
+	// `if !integerFitsColumn(…) { return nil, … }` somewhere before the AppendBinaryValue call of the same block
+	guarded := false
+	ast.Inspect(bld, func(n ast.Node) bool {
+		blk, ok := n.(*ast.BlockStmt)
+		if !ok {
+			return true
+		}
+		seenGuard := false
+		for _, st := range blk.List {
+			if ifs, ok := st.(*ast.IfStmt); ok {
+				if u, ok := ifs.Cond.(*ast.UnaryExpr); ok && u.Op == token.NOT && c13Calls(u.X, "integerFitsColumn") {
+					ret := false
+					for _, b := range ifs.Body.List {
+						if _, ok := b.(*ast.ReturnStmt); ok {
+							ret = true
+						}
+					}
+					seenGuard = seenGuard || ret
+					continue
+				}
+			}
+			if seenGuard && c13Calls(st, "AppendBinaryValue") {
+				guarded = true
+			}
+		}
+		return true
+	})
+	wcd, err := c13FindFunc(repo, "proxy/server/client_conn.go", "ClientConn", "writeColumnDefinition")
+	if err != nil {
+		return nil, err
+	}
+	// the Write* calls after `mysql.WriteByte(data, pos, 0x0c)`: which member of `field` each writes
+	var members []string
+	after := false
+	for _, st := range wcd.Body.List {
+		as, ok := st.(*ast.AssignStmt)
+		if !ok || len(as.Rhs) != 1 {
+			continue
+		}
+		call, ok := as.Rhs[0].(*ast.CallExpr)
+		if !ok {
+			continue
+		}
+		sel, ok := call.Fun.(*ast.SelectorExpr)
+		if !ok || !strings.HasPrefix(sel.Sel.Name, "Write") || len(call.Args) != 3 {
+			continue
+		}
+		if lit, ok := call.Args[2].(*ast.BasicLit); ok && sel.Sel.Name == "WriteByte" && lit.Value == "0x0c" {
+			after = true
+			continue
+		}
+		if !after {
+			continue
+		}
+		width := map[string]string{"WriteByte": "1", "WriteUint16": "2", "WriteUint32": "4"}[sel.Sel.Name]
+		member := ""
+		ast.Inspect(call.Args[2], func(m ast.Node) bool {
+			if s2, ok := m.(*ast.SelectorExpr); ok {
+				if id, ok := s2.X.(*ast.Ident); ok && id.Name == "field" {
+					member = s2.Sel.Name
+				}
+			}
+			return true
+		})
+		if member == "" {
+			member = "0"
+		}
+		if width == "" {
+			break
+		}
+		members = append(members, fmt.Sprintf("(%q, %s)", member, width))
+	}
+	if len(members) == 0 {
+		return nil, fmt.Errorf("C13: the fixed-length part of writeColumnDefinition was not recognised")
+	}
+	b := func(x bool) string {
+		if x {
+			return "true"
+		}
+		return "false"
+	}
+	return []fact{
+		{name: "c13LenEncAppendTypes", typ: "List Nat", val: c13NatList(lenEnc),
+			doc: "mysql/encoding.go AppendBinaryValue, append phase: the column types sent by AppendLenEncStringBytes"},
+		{name: "c13RawAppendTypes", typ: "List Nat", val: c13NatList(raw),
+			doc: "mysql/encoding.go AppendBinaryValue, append phase: the column types whose bytes are appended as they are"},
+		{name: "c13BuildChecksIntegerRange", typ: "Bool", val: b(guarded),
+			doc: "mysql/result.go BuildBinaryResultset returns an error when !integerFitsColumn(…) before it calls AppendBinaryValue"},
+		{name: "c13ColumnDefFixedPart", typ: "List (String × Nat)", val: "[" + strings.Join(members, ", ") + "]",
+			doc: "proxy/server/client_conn.go writeColumnDefinition: the members of the field written after the 0x0c byte, with their widths"},
+	}, nil
 }
